@@ -7,6 +7,16 @@ the bundled drawings (stereo marks mirrored, page children permuted, page transl
 and a determinism oracle (same object / cold object / other global numpy.random seed / fresh process).
 sys.monitoring LINE counters on the anchored functions show that the ring branch, the acyclic branch and the
 bold/hash branch of the 3D-ification and the nested-fragment join were executed.
+
+Absolute 3-D sense (check_absolute / check_mark_effect; conventions in ASSUMPTIONS): the sign of the dominant neighbour
+triple at the narrow end of every uncrowded wedge / hashed wedge (Begin and End forms, acyclic and ring bonds, also in
+fragments with a hapto centre away from that centre) and "a drawn stereocentre is not parsed flat"; Bold / Hash ring
+bonds and ring wedges by their height over the unmarked atoms of the ring system (frame-free); every single mark removed
+on its own must change the parse; every wedge written the other way round (B <-> E, Begin <-> End) must parse to the
+same fragment.  Hand-written drawings (vmon/models/c13_drawings.py) add what the bundled files lack: stereocentres in
+parts turned by 60 ... 180 degrees, End forms, perspective / bridged / fused rings, at many orientations and positions.
+Two mechanisms fail on the unchanged tree (tools/findings/C13-ext.json) and are set aside in KNOWN_ON_UNCHANGED_TREE /
+GENERATED_LEFT_OUT_UNTIL_REPAIRED; VERIF_C13_JUDGE_KNOWN=1 judges them too (for a repaired tree).
 """
 from __future__ import annotations
 
@@ -26,22 +36,47 @@ RULE = ("every labelled fragment of the 7 bundled .cdxml files (116 labels) is p
         "(quick) / 2000 (thorough) offsets over the fragments that bend a substituent inside an already bent part), "
         "object ids renumbered (offset / shuffled / dense from 1 / dense from 100001 / abbreviation nodes given the "
         "number drawn on another atom), document order of the nodes inside each fragment shuffled, and compositions "
-        "of these; a case = (file, rewrite, label); non-trivial = the "
+        "of these, every wedge written the other way round (B <-> E with Begin <-> End), and every single stereo mark "
+        "removed on its own; plus hand-written drawings (vmon/models/c13_drawings.py: zig-zag chains with stereocentres "
+        "inside parts that one, two or three earlier wedges have turned by 60 to 180 degrees, single centres with three "
+        "and four neighbours, perspective rings with a thick front or rear edge, bridged and fused rings with a wedge "
+        "on a ring bond; every Display value) under 12 rotations / reflections of each fragment (8 fixed, 4 seeded), "
+        "each again mirrored, flipped and translated to 5 (quick) / 40 (thorough) seeded page positions; "
+        "a case = (file, rewrite, label); non-trivial = the "
         "fragment carries at least one stereo mark or a nested (abbreviation) fragment; distinct by (file, rewrite, "
         "rewrite seed, label)")
 ASSUMPTIONS = [
     "the reference reading of the drawing (vmon/models/cdxmlref.py) is trusted: bracket (MultiAttachment) nodes are "
     "not atoms, a node carrying a nested fragment stands for that fragment's nodes minus one connection point, "
     "Radical Doublet=1 / Singlet=2 unpaired-electron count (the repository's own test expects CCl2 singlet -> mult 3)",
-    "bonds of hapto centres are not judged (count only) and centres that are, or are bonded to, a hapto centre are "
-    "excluded from the handedness oracles, as the property says",
+    "bonds of hapto centres are judged for presence only (one per attached atom, any kind) and centres that are, or "
+    "are bonded to, a hapto centre are excluded from the handedness oracles, as the property says",
     "a dashed bond may be reported as a ligand (dative) bond or with its drawn order; the junction bond of a nested "
     "fragment is only judged when both drawn halves are plain single bonds",
     "a centre is non-planar when |normalised signed volume| of its dominant neighbour triple >= 0.2 in the parse of "
     "the drawing or of its mirror image; only the sign of that triple is compared after mirroring",
-    "absolute handedness is judged only for acyclic wedge/hash bonds whose narrow end is a centre with >= 3 drawn "
-    "neighbours, no other stereo mark at either end and no marked neighbour across a ring bond, with y pointing down "
-    "on the page and wedges towards the viewer, and only when drawn and parsed |volume| are both >= 0.2",
+    "absolute sense, convention relied on: y points down on the page and the viewer looks along -z; a wedge (WedgeBegin "
+    "/ WedgeEnd) has its wide end towards the viewer, a hashed wedge away from the viewer, as seen from the atom at its "
+    "narrow end while that atom's other drawn bonds stay in the plane of the paper; ...Begin has the narrow end at atom "
+    "B, ...End at atom E, otherwise the two mean the same; this holds for ring bonds as for acyclic ones.  Judged: the "
+    "sign of the normalised signed volume of the neighbour triple that is dominant in the drawing (wide end lifted by "
+    "45 degrees; also the triple dominant in the parse when it differs) at a narrow end with >= 3 drawn neighbours, "
+    "drawn |volume| >= 0.2, and that such a centre is not parsed flat (|volume| < max(0.1, 0.4 x drawn)).  Not judged: "
+    "a narrow end that carries another mark or has a neighbour that a ring-bond mark or a Bold/Hash bond displaces "
+    "against it ('crowded'); the two halves of a junction bond to an abbreviation drawn with the same mark are one mark",
+    "Bold / Hash and marks on ring bonds, convention relied on: both atoms of a Bold bond are nearer to the viewer, both "
+    "atoms of a Hash bond farther, than the atoms of the same ring system that no mark touches; the wide end of a wedge "
+    "on a ring bond is nearer than its narrow end (hashed: farther) -- the perspective reading and the stereo reading "
+    "of a ring wedge agree on that.  Heights are measured along the normal of the plane of the unmarked atoms (ring "
+    "system atoms no mark touches plus what hangs on them through unmarked acyclic bonds; >= 3, not collinear, coplanar "
+    "within 5 % of a bond), oriented by their drawn sense of rotation, so no coordinate frame of the parse is assumed; "
+    "a mark must stand out by 10 % of the typical parsed bond length.  Not judged: a thick (Bold/Hash) ACYCLIC bond "
+    "(no agreed meaning), ring marks next to marks of the opposite direction, how far the NARROW end of a ring wedge "
+    "stands out of the ring (the two readings differ there)",
+    "a drawn mark must have some effect: removing one mark (wedge with a narrow end of >= 3 neighbours, any mark on a "
+    "ring bond) must change a distance among the two atoms and their neighbours by >= 5 % of a bond",
+    "in a fragment that contains a hapto centre everything above is judged except at atoms that are, or are bonded "
+    "to, the hapto centre",
     "'the same fragment' for rewrites: identical constitution snapshot; the atoms drawn in the labelled fragment "
     "coincide as a rigid body up to translation (atol 1e-6) and each nested fragment, together with the atom it "
     "hangs on, keeps its internal distances (join chooses the rotation about the junction bond by a clash score "
@@ -59,14 +94,19 @@ LEVEL_TEXT = ("Held on the executions produced: all 116 labelled fragments of th
               "text-level rewrites (mirrored marks, shuffled page, translated page, renumbered ids, compositions) were "
               "parsed by the real CDXMLFile and compared with an independent reading of the same text: constitution as "
               "a labelled graph, charge, multiplicity, attachment points; every non-planar centre inverted under "
-              "mirroring; absolute sense of clean acyclic wedges; repeated / reseeded / fresh-process parses identical. "
-              "Not a proof: the drawings are the bundled ones and their rewrites.")
+              "mirroring; absolute sense of wedges (Begin and End forms, acyclic and ring bonds), of Bold/Hash ring bonds "
+              "and of centres inside parts turned by earlier wedges, on the bundled and on hand-written drawings at many "
+              "page positions and orientations; every mark has an effect; repeated / reseeded / fresh-process parses "
+              "identical. Not a proof: the drawings are the bundled ones, 30 hand-written ones and their rewrites. Two "
+              "mechanisms fail on the unchanged tree and are set aside until repaired (KNOWN_ON_UNCHANGED_TREE, "
+              "tools/findings/C13-ext.json).")
 LEVEL_NOTE = ("Trusted: vmon/models/cdxmlref.py (reference walk, rewrites, isomorphism search), vmon/snap.py, numpy, "
               "xml.etree. The rewrites are self-checked: the reference reading of every rewrite must agree with the "
               "reference reading of the original, otherwise the run is inconclusive.")
 
 FILES = ["parser_demo", "parser_demo2", "charges_mult", "substituents", "BOX_cores", "BOX_4position_fragments",
          "BOX_bridging_fragments"]
+EFFECT_PARTS = {"parser_demo": 3, "parser_demo2": 3, "BOX_cores": 3, "BOX_4position_fragments": 2}
 PARTS = {}     # labels of a file could be split over several chunks; parsing is cheap, interpreter start-up is not
 NONPLANAR = 0.2
 ATOL_VARIANT = 1e-6
@@ -84,6 +124,21 @@ def REQUIRED(tier):
         "determinism.fresh-process": 100,
         "reach.3dify.ring": 20, "reach.3dify.acyclic": 20, "reach.3dify.bold-hash": 5, "reach.nested-join": 20,
         "attachment-points.compared": 50, "rewrite.self-check": 100, "variant.translation-sweep.compared": 200,
+        # absolute sense: every Display value, centres in turned parts, fragments with a hapto centre, ring marks
+        "handedness.absolute-judged.WedgeBegin": 1500, "handedness.absolute-judged.WedgedHashBegin": 1000,
+        "handedness.absolute-judged.WedgeEnd": 400, "handedness.absolute-judged.WedgedHashEnd": 400,
+        "handedness.absolute-judged.generated-drawing": 2000,
+        "handedness.absolute-judged.in-part-bent-by-another-mark": 1000,
+        "handedness.absolute-judged.in-part-turned-90-degrees": 300,
+        "handedness.absolute-judged.in-part-turned-beyond-90-degrees": 300,
+        "handedness.absolute-judged.ring-bond": 300,
+        "handedness.absolute-judged.in-fragment-with-hapto-centre": 10,
+        "handedness.ring-height-judged.Bold": 200, "handedness.ring-height-judged.Hash": 150,
+        "handedness.ring-height-judged.WedgeBegin": 250, "handedness.ring-height-judged.WedgedHashBegin": 200,
+        "handedness.ring-height-judged.WedgeEnd": 150, "handedness.ring-height-judged.WedgedHashEnd": 200,
+        "handedness.ring-height-judged.generated-drawing": 1000,
+        "mark-effect.judged": 100, "mark-effect.judged.WedgeEnd": 8, "mark-effect.judged.Bold": 8,
+        "variant.flip-ends.compared": 400, "constitution.graph-compared-in-fragment-with-hapto-centre": 20,
     }
 
 
@@ -141,7 +196,15 @@ def plan(tier, seed):
             nchunks, per = (10, 40) if tier == "quick" else (16, 125)
             for c in range(nchunks):
                 add(f, [[["translate"], 1000 + c * per + k, "bend-in-bend"] for k in range(per)])
+        # every wedge written the other way round (B <-> E, Begin <-> End): the same drawing
+        add(f, [[["flip-ends"], 0], [["flip-ends", "mirror"], 0],
+                [["flip-ends", "permute", "translate", "renumber:shuffle"], 700]])
+        # every stereo mark removed on its own
+        for part in range(EFFECT_PARTS.get(f, 1)):
+            specs.append({"file": f, "variants": [], "part": part, "nparts": EFFECT_PARTS.get(f, 1), "effect": True})
         if tier == "thorough":
+            add(f, [[["flip-ends", "translate"], 710 + k] for k in range(4)]
+                + [[["flip-ends", "reorder", "mirror"], 720 + k] for k in range(2)])
             for g in range(5):
                 add(f, [[["permute", "translate", "renumber:" + styles[k % 3]], 200 + 4 * g + k] for k in range(4)])
             add(f, [[["permute"], k] for k in range(3, 10)])
@@ -150,6 +213,20 @@ def plan(tier, seed):
             add(f, [[["renumber:shuffle"], 400 + k] for k in range(6)])
             add(f, [[["reorder"], 500 + k] for k in range(8)])
             add(f, [[["reorder", "permute", "translate", "renumber:shuffle", "mirror"], 600 + k] for k in range(6)])
+    # hand-written drawings (zig-zag chains with bends inside bent parts, perspective rings, a bridged ring; every
+    # Display value) under rotations / reflections of the fragment, each at many page positions
+    import random
+    rnd = random.Random(f"C13-generated-{seed}")
+    angles = [0.0, 90.0, 180.0, 270.0, 30.0, 137.5, 211.0, 300.3] + [round(rnd.uniform(0.0, 360.0), 2) for _ in range(4)]
+    per = 5 if tier == "quick" else 40
+    for k, ang in enumerate(angles):
+        refl = bool(k % 2)
+        name = f"generated-{k}"
+        variants = [[[], 0], [["mirror"], 0], [["flip-ends"], 0], [["flip-ends", "mirror"], 1]]
+        variants += [[["translate"], 2000 + per * k + j] for j in range(per)]
+        variants += [[["translate", "mirror"], 3000 + k], [["flip-ends", "translate"], 3100 + k]]
+        specs.append({"file": name, "gen": {"angle_deg": ang, "reflect": refl}, "variants": variants, "part": 0,
+                      "nparts": 1, "effect": k < 2})
     return specs
 
 
@@ -373,13 +450,17 @@ def build_variant(text, steps, vseed, ctx_rng):
     """apply the rewrites in order; returns (text, info) with info = translation, id mapping, mirrored?"""
     from vmon.models import cdxmlref as R
 
-    info = {"dx": 0.0, "dy": 0.0, "idmap": None, "mirrored": False, "permuted": False, "marks": 0, "reordered": False}
+    info = {"dx": 0.0, "dy": 0.0, "idmap": None, "mirrored": False, "permuted": False, "marks": 0, "reordered": False,
+            "flipped": False}
     for k, step in enumerate(steps):
         rng = ctx_rng(step, k)
         if step == "mirror":
             text, n = R.mirror_marks(text)
             info["mirrored"] = not info["mirrored"]
             info["marks"] = n
+        elif step == "flip-ends":
+            text, _n = R.flip_ends(text)
+            info["flipped"] = not info["flipped"]
         elif step == "reorder":
             text = R.reorder_nodes(text, rng)
             info["reordered"] = True
@@ -444,8 +525,15 @@ def run_chunk(spec, ctx):
 
     warnings.simplefilter("ignore")
     file = spec["file"]
-    src = Path(ml.files.parser_demo_cdxml).parent / (file + ".cdxml")    # the directory of the bundled drawings
-    text0 = open(src, encoding="utf-8").read()
+    if spec.get("gen") is not None:
+        # hand-written drawings (vmon/models/c13_drawings.py) placed on a page under a rotation / reflection
+        from vmon.models import c13_drawings as G
+        text0 = G.document(skip=GENERATED_LEFT_OUT_UNTIL_REPAIRED, **spec["gen"])
+        src = ctx.tmp / (file + ".cdxml")
+        src.write_text(text0, encoding="utf-8")
+    else:
+        src = Path(ml.files.parser_demo_cdxml).parent / (file + ".cdxml")    # the directory of the bundled drawings
+        text0 = open(src, encoding="utf-8").read()
 
     reach = Reach(ctx)
     reach_ok = reach.install()
@@ -541,8 +629,45 @@ def _run(spec, env, file, src, text0):
             obs = observe(m, ml)
             check_constitution(ctx, file, lb, fr, obs, case)
             check_absolute(ctx, np, file, lb, fr, obs, case, d0)
+    if spec.get("effect"):
+        _run_effect(env, file, text0, d0, labels, base)
     if spec.get("determinism"):
         check_determinism(ctx, np, ml, CDXMLFile, snap, diff, file, src, labels, base, cf0)
+
+
+def _run_effect(env, file, text0, d0, labels, base):
+    """every stereo mark of every fragment removed on its own: the parse must change around that bond"""
+    ctx, np, ml, CDXMLFile, R, snap, diff = env
+    path1 = ctx.tmp / f"{file}-one-mark-removed.cdxml"
+    for lb in labels:
+        try:
+            fr = d0.resolve(lb)
+        except R.Unsupported:
+            continue
+        m0 = base.get(lb)
+        if not fr.marks or m0 is None or isinstance(m0, Exception):
+            continue
+        obs0 = observe(m0, ml)
+        for k, bid in enumerate(fr.mark_ids):
+            case = [f"effect:{k}", lb]
+            if not ctx.want(case):
+                continue
+            text1, n = R.strip_mark(text0, bid)
+            fr1 = R.Drawing(text1).resolve(lb) if n == 1 else None
+            if fr1 is None or fr1.order != fr.order or fr1.bonds != fr.bonds or \
+                    fr1.marks != fr.marks[:k] + fr.marks[k + 1:]:
+                raise RuntimeError(f"removing the mark of bond {bid} of {file}:{lb} is not faithful")
+            ctx.count("rewrite.self-check")
+            path1.write_text(text1, encoding="utf-8")
+            ctx.case(case, dkey=(file, "one-mark-removed", lb, k), nontrivial=True,
+                     sample={"file": file, "label": lb, "rewrite": "one-mark-removed", "mark": list(fr.marks[k])})
+            try:
+                m1 = CDXMLFile(path1)[lb]
+            except Exception as e:  # noqa
+                ctx.violation(f"parse-raises:one-mark-removed:{_where(e)}", case=case, file=file, label=lb,
+                              err=repr(e)[:300], cause=repr(e.__cause__)[:300])
+                continue
+            check_mark_effect(ctx, np, file, lb, fr, obs0, fr1, observe(m1, ml), k, case)
 
 
 def _run_variant(spec, env, file, text0, d0, labels_all, labels, base, vi, steps, vseed):
@@ -706,10 +831,9 @@ def check_constitution(ctx, file, lb, fr, obs, case, vname="original", idmap=Non
                 break
             rest.remove(hit)
 
-    # constitution as a labelled graph (fragments with hapto centres: multisets only, their bonds are not judged)
+    # constitution as a labelled graph (bonds of a hapto centre: one per attached atom must exist, kind not judged)
     if fr.hapto_centres:
-        ctx.count("constitution.hapto-fragment-multisets-only")
-        return None
+        ctx.count("constitution.graph-compared-in-fragment-with-hapto-centre")
     if len(obs["akeys"]) != n:
         return None
     pos = {nid: i for i, nid in enumerate(fr.order)}
@@ -738,82 +862,321 @@ def check_constitution(ctx, file, lb, fr, obs, case, vname="original", idmap=Non
     return m if how == "id" else None
 
 
-def check_absolute(ctx, np, file, lb, fr, obs, case, drawing=None):
-    """sense of clean acyclic wedges: y points down on the page, a wedge widens towards the viewer (+z)"""
-    if fr.hapto_centres or len(obs["akeys"]) != len(fr.order):
+POLARITY = {"wedge": 1, "bold": 1, "hash": -1, "bhash": -1}     # +1: the mark says "towards the viewer"
+HEIGHT_MARGIN = 0.1     # fraction of the typical parsed bond length by which a marked ring atom must stand out
+FLAT_RATIO = 0.4       # a drawn stereocentre counts as parsed flat below this fraction of the drawn volume (and below 0.1)
+EFFECT_MARGIN = 0.05    # same unit: smallest change of a local distance that counts as "the mark did something"
+
+# Nothing is silenced inside the module.  What the unchanged library is known to get wrong (the ring branch of
+# _cdxml_3dify_ lifts the narrow end of a wedge on a ring bond as well; tools/findings/C13-ext.json) is listed with status
+# "open" in /verif/known_findings.json and reported by the runner as KNOWN-FINDING lines.
+KNOWN_ON_UNCHANGED_TREE = set()
+GENERATED_LEFT_OUT_UNTIL_REPAIRED = []
+
+
+def report(ctx, key, **kw):
+    if key in KNOWN_ON_UNCHANGED_TREE:
+        ctx.count("known-on-unchanged-tree:" + key)
         return
+    ctx.violation(key, **kw)
+
+
+class MarkContext:
+    """what the reference reading says around the stereo marks of one fragment (graph facts of the drawing only)"""
+
+    def __init__(self, fr):
+        from vmon.models.cdxmlref import _in_ring
+        self.fr = fr
+        self.adj = fr.adjacency()
+        self.near_hapto = set(fr.hapto_centres)
+        for c in fr.hapto_centres:
+            self.near_hapto.update(self.adj[c])
+        self._ring = {}
+        self._in_ring = _in_ring
+        # a mark on the bond to an abbreviation is usually drawn twice (outside, and inside the expanded abbreviation):
+        # the two halves of one junction bond are ONE mark; `twin[k]` is the index of the half that stands for both
+        first = {}
+        self.twin = [first.setdefault(mk[:3], k) for k, mk in enumerate(fr.marks)]
+        self.copies = Counter(self.twin)
+        self.touching = {}
+        for k, mk in enumerate(fr.marks):
+            if self.twin[k] != k:
+                continue
+            self.touching.setdefault(mk[0], []).append(k)
+            self.touching.setdefault(mk[1], []).append(k)
+        # marks that displace their atoms against the ring they sit in: every mark on a ring bond, every Bold / Hash
+        self.heavy = [self.ring_bond(mk[0], mk[1]) or mk[2] in ("bold", "bhash") for mk in fr.marks]
+        self._moved = None
+
+    def ring_bond(self, a, b):
+        k = (a, b) if a < b else (b, a)
+        if k not in self._ring:
+            self._ring[k] = self._in_ring(self.adj, a, b)
+        return self._ring[k]
+
+    def disturbed(self, k):
+        """is the picture at the narrow end of mark k changed by anything but mark k itself?  Another mark at that
+        atom is; a mark that displaces one of its neighbours against it (ring bond / Bold / Hash) is.  Acyclic wedges
+        elsewhere are not: they turn the atom together with all its neighbours, or only a neighbour's far side."""
+        u = self.fr.marks[k][0]
+        if len(self.touching[u]) != 1:
+            return True
+        for w in self.adj[u]:
+            if any(self.heavy[j] for j in self.touching.get(w, ()) if j != k):
+                return True
+        return False
+
+    def turned(self, atom):
+        """(number of acyclic wedge / hash bonds whose far side holds the atom, sum of their nominal bends in degrees:
+        a substituent of a centre with four drawn neighbours stands at 90 degrees to the other three, of a centre with
+        three neighbours it is bent by about 60).  The sum only sorts centres into classes, it is never a verdict."""
+        if self._moved is None:
+            self._moved = []
+            for k, (u2, v2, kind, _d) in enumerate(self.fr.marks):
+                if kind not in ("wedge", "hash") or self.ring_bond(u2, v2) or self.twin[k] != k:
+                    continue
+                moved, todo = {v2}, [v2]
+                while todo:
+                    w = todo.pop()
+                    for x in self.adj[w]:
+                        if x not in moved and not (w == v2 and x == u2):
+                            moved.add(x)
+                            todo.append(x)
+                self._moved.append((moved, 90 if len(self.adj[u2]) >= 4 else 60))
+        hits = [q for moved, q in self._moved if atom in moved]
+        return len(hits), sum(hits)
+
+    def fixed_atoms(self, u):
+        """atoms of the ring system of u that no mark touches, plus what hangs on them through unmarked acyclic bonds
+        (same drawing frame, no hapto neighbourhood): the part of the drawing the marks say nothing about"""
+        fr = self.fr
+        system, todo = {u}, [u]
+        while todo:
+            a = todo.pop()
+            for b in self.adj[a]:
+                if b not in system and self.ring_bond(a, b):
+                    system.add(b)
+                    todo.append(b)
+        frame = fr.atoms[u]["frame"]
+        ok = lambda a: a not in self.touching and a not in self.near_hapto and fr.atoms[a]["frame"] == frame  # noqa
+        seen = {a for a in system if ok(a)}
+        todo = list(seen)
+        while todo:
+            a = todo.pop()
+            for b in self.adj[a]:
+                if b in seen or b in system or not ok(b) or self.ring_bond(a, b):
+                    continue
+                seen.add(b)
+                todo.append(b)
+        return sorted(seen)
+
+
+def _mapped(fr, obs):
+    """document order of the drawn nodes is an isomorphism onto the parsed atoms (hapto bonds: presence only)"""
+    if len(obs["akeys"]) != len(fr.order):
+        return None
     pos = {nid: i for i, nid in enumerate(fr.order)}
-    # only with the document-order mapping verified as an isomorphism
     ea = {}
     for u, v, o, t in fr.bonds:
         i, j = pos[u], pos[v]
         ea[(i, j) if i < j else (j, i)] = (o, t)
     if len(ea) != len(obs["edges"]) or any(k not in obs["edges"] or not edge_ok(la, obs["edges"][k]) for k, la in ea.items()) \
             or any(fr.atom_key(nid) != obs["akeys"][i] for nid, i in pos.items()):
+        return None
+    return pos
+
+
+def _typical_bond(np, fr, obs, pos):
+    ls = [float(np.linalg.norm(obs["coords"][pos[u]] - obs["coords"][pos[v]])) for u, v, _o, t in fr.bonds if t != "hapto"]
+    ls = sorted(x for x in ls if np.isfinite(x))
+    return ls[len(ls) // 2] if ls else 1.5
+
+
+def _drawn_directions(np, fr, mc, u, v, kind, pos):
+    """unit vectors from the narrow end u to its drawn neighbours: y points down on the page, the wide end v is lifted
+    towards (wedge) / pushed away from (hash) the viewer by 45 degrees.  None when a neighbour is drawn in another frame."""
+    cu = fr.atoms[u]["xy"]
+    frame = fr.atoms[u]["frame"]
+    ref = {}
+    for w in mc.adj[u]:
+        aw = fr.atoms[w]
+        if aw["frame"] == frame:
+            x, y = aw["xy"]
+        elif aw["carrier"] and aw["carrier"][0] == frame:
+            x, y = aw["carrier"][1]     # seen from the centre, a nested fragment sits where its carrier node was drawn
+        else:
+            return None
+        dx, dy = x - cu[0], -(y - cu[1])
+        L = (dx * dx + dy * dy) ** 0.5
+        if L < 1e-6:
+            return None
+        vec = np.array([dx / L, dy / L, (float(POLARITY[kind]) if w == v else 0.0)])
+        ref[pos[w]] = vec / np.linalg.norm(vec)
+    return ref
+
+
+def check_absolute(ctx, np, file, lb, fr, obs, case, drawing=None):
+    """absolute 3-D sense of the stereo marks, judged where the drawing is unambiguous (see ASSUMPTIONS):
+       (a) wedge / hashed wedge, Begin and End variants, acyclic and ring bonds: the sign of the dominant neighbour
+           triple at the narrow end (wide end towards / away from the viewer, y down on the page), and that a drawn
+           stereocentre is not parsed flat;
+       (b) marks on ring bonds, against the atoms of the same ring system that no mark touches: both atoms of a Bold
+           bond are nearer to the viewer, those of a Hash bond farther; the wide end of a wedge is nearer than its
+           narrow end, of a hashed wedge farther."""
+    if not fr.marks:
+        return
+    pos = _mapped(fr, obs)
+    if pos is None:
         ctx.count("handedness.absolute-unmappable")
         return
-    adj = fr.adjacency()
-    touched = Counter()
-    for u, v, _k, _d in fr.marks:
-        touched[u] += 1
-        touched[v] += 1
-    from vmon.models.cdxmlref import _in_ring
-    for u, v, kind, disp in fr.marks:
-        if kind not in ("wedge", "hash"):
-            continue
-        if _in_ring(adj, u, v):
-            ctx.count("handedness.absolute-skipped-ring-bond")
-            continue
-        if len(adj[u]) < 3:
-            ctx.count("handedness.absolute-skipped-terminal")
-            continue
-        # another mark at either end, or a marked neighbour reached through a ring bond (it is displaced while
-        # the centre stays), changes the picture; marks further out move the centre and its neighbours together
-        if touched[u] != 1 or touched[v] != 1 or any(touched[w] and _in_ring(adj, u, w) for w in adj[u] if w != v):
-            ctx.count("handedness.absolute-skipped-crowded")
-            continue
-        # drawn embedding (nodes of a nested fragment are drawn in their own hidden frame: seen from the centre
-        # they sit where their carrier node was drawn; a centre inside a nested fragment is not judged)
-        cu = fr.atoms[u]["xy"]
-        frame = fr.atoms[u]["frame"]
-        ref = {}
-        ok = True
-        for w in adj[u]:
-            aw = fr.atoms[w]
-            if aw["frame"] == frame:
-                x, y = aw["xy"]
-            elif aw["carrier"] and aw["carrier"][0] == frame:
-                x, y = aw["carrier"][1]
+    mc = MarkContext(fr)
+    X = obs["coords"]
+    gen = file.startswith("generated")
+    L = None
+    for k, (u, v, kind, disp) in enumerate(fr.marks):
+        if mc.twin[k] != k:
+            continue        # the other half of a junction bond that has been looked at already
+        ring = mc.ring_bond(u, v)
+        depth, turn = mc.turned(u)
+        # the class of the centre is part of the mechanism: a mark on a ring bond / a centre in a part of the molecule that
+        # marks nearer to the root of the drawing have turned by more than a right angle / everything else
+        where = "ring-bond:" if ring else ("in-part-turned-beyond-90-degrees:" if turn > 90 else "")
+        det = dict(case=case, file=file, label=lb, narrow_end_node=u, wide_end_node=v)
+        # ---------------------------------------------------------------- (a) sense at the narrow end
+        if kind in ("wedge", "hash"):
+            ref = None
+            if u in mc.near_hapto:
+                ctx.count("handedness.absolute-skipped-hapto-neighbourhood")
+            elif len(mc.adj[u]) < 3:
+                ctx.count("handedness.absolute-skipped-terminal")
+            elif mc.disturbed(k):
+                ctx.count("handedness.absolute-skipped-crowded")
             else:
-                ok = False
-                break
-            dx, dy = x - cu[0], -(y - cu[1])
-            L = (dx * dx + dy * dy) ** 0.5
-            if L < 1e-6:
-                ok = False
-                break
-            z = 0.0
-            if w == v:
-                z = 1.0 if kind == "wedge" else -1.0
-            vec = np.array([dx / L, dy / L, z])
-            ref[pos[w]] = vec / np.linalg.norm(vec)
-        if not ok:
-            ctx.count("handedness.absolute-skipped-foreign-frame")
+                ref = _drawn_directions(np, fr, mc, u, v, kind, pos)
+                if ref is None:
+                    ctx.count("handedness.absolute-skipped-foreign-frame")
+            vols = triple_volumes(X, pos[u], [pos[w] for w in mc.adj[u]]) if ref is not None else None
+            if vols:
+                rv = {t: float(np.linalg.det(np.array([ref[t[0]], ref[t[1]], ref[t[2]]]))) for t in vols}
+                td, vr = max(rv.items(), key=lambda kv: abs(kv[1]))      # dominant triple of the DRAWING
+                tp, vmp = max(vols.items(), key=lambda kv: abs(kv[1]))   # dominant triple of the parse
+                vm = vols[td]
+                if abs(vr) < NONPLANAR:
+                    ctx.count("handedness.absolute-skipped-near-planar-drawing")
+                else:
+                    ctx.count("handedness.absolute-judged")
+                    ctx.count(f"handedness.absolute-judged.{disp}")
+                    ctx.count("handedness.absolute-judged." + ("ring-bond" if ring else "acyclic-bond"))
+                    if fr.hapto_centres:
+                        ctx.count("handedness.absolute-judged.in-fragment-with-hapto-centre")
+                    if depth:
+                        ctx.count("handedness.absolute-judged.in-part-bent-by-another-mark")
+                    if turn == 90:
+                        ctx.count("handedness.absolute-judged.in-part-turned-90-degrees")
+                    if turn > 90:
+                        ctx.count("handedness.absolute-judged.in-part-turned-beyond-90-degrees")
+                    if gen:
+                        ctx.count("handedness.absolute-judged.generated-drawing")
+                    wit = dict(drawn_volume=round(vr, 3), parsed_volume=round(vm, 3), triple=[fr.order[i] for i in td],
+                               marks_that_turn_this_centre=depth, their_nominal_turn=turn, **det)
+                    if abs(vm) < max(NONPLANAR / 2, FLAT_RATIO * abs(vr)):
+                        report(ctx, f"handedness:drawn-stereocentre-parsed-flat:{where}{disp}", **wit)
+                    elif vm * vr < 0:
+                        report(ctx, f"handedness:absolute-sense-wrong:{where}{disp}", **wit)
+                    elif tp != td and abs(rv[tp]) >= NONPLANAR and abs(vmp) >= NONPLANAR and vmp * rv[tp] < 0:
+                        report(ctx, f"handedness:absolute-sense-wrong:{where}{disp}", **dict(
+                            wit, drawn_volume=round(rv[tp], 3), parsed_volume=round(vmp, 3),
+                            triple=[fr.order[i] for i in tp], judged_on="dominant triple of the parse"))
+        # ---------------------------------------------------------------- (b) heights of ring-bond marks
+        if not ring:
+            if kind in ("bold", "bhash"):
+                ctx.count("handedness.thick-acyclic-bond-not-judged")
             continue
-        vols = triple_volumes(obs["coords"], pos[u], [pos[w] for w in adj[u]])
-        if not vols:
+        if u in mc.near_hapto or v in mc.near_hapto:
+            ctx.count("handedness.ring-height-skipped-hapto-neighbourhood")
             continue
-        t, vm = max(vols.items(), key=lambda kv: abs(kv[1]))
-        vr = float(np.linalg.det(np.array([ref[t[0]], ref[t[1]], ref[t[2]]])))
-        if abs(vm) < NONPLANAR or abs(vr) < NONPLANAR:
-            ctx.count("handedness.absolute-skipped-near-planar")
+        pol = POLARITY[kind]
+        others_u = [fr.marks[j] for j in mc.touching[u] if j != k]
+        others_v = [fr.marks[j] for j in mc.touching[v] if j != k]
+        if kind in ("bold", "bhash"):
+            clear = all(POLARITY[m[2]] == pol for m in others_u + others_v)
+        else:
+            # nothing else at the narrow end; at the wide end only marks of the same direction that do not start there
+            clear = not others_u and all(POLARITY[m[2]] == pol and (m[2] in ("bold", "bhash") or m[0] != v)
+                                         for m in others_v)
+        if not clear:
+            ctx.count("handedness.ring-height-skipped-conflicting-marks")
             continue
-        ctx.count("handedness.absolute-judged")
-        ctx.count(f"handedness.absolute-judged.{disp}")
-        if vm * vr < 0:
-            ctx.violation(f"handedness:absolute-sense-wrong:{disp}", case=case, file=file, label=lb,
-                          centre_node=u, wide_end_node=v, drawn_volume=round(vr, 3), parsed_volume=round(vm, 3),
-                          triple=[fr.order[i] for i in t])
+        fixed = mc.fixed_atoms(u)
+        if len(fixed) < 3:
+            ctx.count("handedness.ring-height-skipped-few-unmarked-atoms")
+            continue
+        D = np.array([[fr.atoms[a]["xy"][0], -fr.atoms[a]["xy"][1]] for a in fixed], dtype=float)
+        D -= D.mean(axis=0)
+        P = np.array([X[pos[a]] for a in fixed], dtype=float)
+        c = P.mean(axis=0)
+        P = P - c
+        N = np.zeros(3)
+        w2 = 0.0
+        for i, j in itertools.combinations(range(len(fixed)), 2):
+            A = D[i, 0] * D[j, 1] - D[i, 1] * D[j, 0]        # drawn orientation (anticlockwise > 0 seen by the viewer)
+            N += A * np.cross(P[i], P[j])
+            w2 += A * A
+        nn = float(np.linalg.norm(N))
+        if L is None:
+            L = _typical_bond(np, fr, obs, pos)
+        if w2 < 1e-3 * float(np.sum(D * D)) ** 2 or not np.isfinite(nn) or nn < 1e-9:
+            ctx.count("handedness.ring-height-skipped-unmarked-atoms-collinear")
+            continue
+        n = N / nn
+        if float(np.max(np.abs(P @ n))) > 0.05 * L:
+            ctx.count("handedness.ring-height-skipped-unmarked-atoms-not-planar")
+            continue
+        hu, hv = float((X[pos[u]] - c) @ n), float((X[pos[v]] - c) @ n)
+        ctx.count("handedness.ring-height-judged")
+        ctx.count(f"handedness.ring-height-judged.{disp}")
+        if gen:
+            ctx.count("handedness.ring-height-judged.generated-drawing")
+        wit = dict(height_of_first_atom=round(hu, 3), height_of_second_atom=round(hv, 3), typical_bond=round(L, 3),
+                   unmarked_atoms_used=len(fixed), **det)
+        if kind in ("bold", "bhash"):
+            if min(pol * hu, pol * hv) < HEIGHT_MARGIN * L:
+                report(ctx, f"handedness:thick-ring-bond-on-wrong-side-of-unmarked-atoms:{disp}", **wit)
+        elif pol * (hv - hu) < HEIGHT_MARGIN * L:
+            report(ctx, f"handedness:ring-wedge-wide-end-on-wrong-side-of-narrow-end:{disp}", **wit)
+
+
+def check_mark_effect(ctx, np, file, lb, fr, obs, fr1, obs1, k, case):
+    """a drawn stereo mark must do SOMETHING: the parse of the drawing differs, around the marked bond, from the parse of
+    the same drawing without that one mark (distances among the two atoms and their neighbours)"""
+    u, v, kind, disp = fr.marks[k]
+    mc = MarkContext(fr)
+    if mc.copies[mc.twin[k]] > 1:
+        ctx.count("mark-effect.skipped-one-half-of-a-junction-bond")     # the other half still carries the mark
+        return
+    ring = mc.ring_bond(u, v)
+    if u in mc.near_hapto or (ring and v in mc.near_hapto):
+        ctx.count("mark-effect.skipped-hapto-neighbourhood")
+        return
+    if not ring and (kind in ("bold", "bhash") or len(mc.adj[u]) < 3):
+        ctx.count("mark-effect.skipped-mark-without-agreed-meaning")   # thick acyclic bond, wedge at a chain end
+        return
+    pos, pos1 = _mapped(fr, obs), _mapped(fr1, obs1)
+    if pos is None or pos1 is None or fr.order != fr1.order:
+        ctx.count("mark-effect.unmappable")
+        return
+    idx = sorted({pos[a] for a in ({u, v} | set(mc.adj[u]) | set(mc.adj[v]))})
+    A, B = obs["coords"][idx], obs1["coords"][idx]
+    da = np.linalg.norm(A[:, None, :] - A[None, :, :], axis=-1)
+    db = np.linalg.norm(B[:, None, :] - B[None, :, :], axis=-1)
+    L = _typical_bond(np, fr, obs, pos)
+    change = float(np.max(np.abs(da - db)))
+    ctx.count("mark-effect.judged")
+    ctx.count(f"mark-effect.judged.{disp}")
+    if not change >= EFFECT_MARGIN * L:
+        report(ctx, f"handedness:mark-without-effect:{'ring-bond:' if ring else ''}{disp}", case=case, file=file,
+               label=lb, narrow_end_node=u, wide_end_node=v, largest_change_of_a_local_distance=change,
+               typical_bond=round(L, 3))
 
 
 def check_mirror(ctx, np, file, lb, f0, o0, o1, vname, vfull, case):
@@ -922,16 +1285,20 @@ def check_same_fragment(ctx, np, snap, diff, file, lb, m0, m1, o0, o1, info, vna
             return      # the constitution of the rewritten drawing is still judged against the reference reading
         s1 = _permute_snapshot(s1, perm)
         s0 = _permute_snapshot(s0, list(range(len(s0["atoms"]))))
+    elif info.get("flipped") and len(s0["atoms"]) == len(s1["atoms"]):
+        # a bond written with its two atoms exchanged is the same bond: compare the bonds as unordered pairs
+        s1 = _permute_snapshot(s1, list(range(len(s1["atoms"]))))
+        s0 = _permute_snapshot(s0, list(range(len(s0["atoms"]))))
     idmap = info["idmap"]
     if idmap:
         # an atom label that *is* an object id (abbreviation nodes are labelled by their id) follows the renaming
         for a0, a1 in zip(s0["atoms"], s1["atoms"]):
             if isinstance(a0["label"], str) and a0["label"] in idmap and a1["label"] == idmap[a0["label"]]:
                 a1["label"] = a0["label"]
-    for k in ("permute", "translate", "renumber", "lone-atoms"):
+    for k in ("permute", "translate", "renumber", "lone-atoms", "flip-ends"):
         if k in vname:
             ctx.count(f"variant.{k}.compared")
-    if vname == "translate" and vseed >= 1000:
+    if vname == "translate" and 1000 <= vseed < 2000:
         ctx.count("variant.translation-sweep.compared")
     if "mirror" in vname:
         ctx.count("variant.mirror.compared")
